@@ -233,7 +233,7 @@ Proof.
   intros B. unfold decompress, spec_decode_lax.
   rewrite lz_loop_spec; [|exact B|lia|rewrite nlen_nil; lia].
   unfold lz_result. destruct (lrun true (S (length s)) s []) as [fin|]; [|reflexivity].
-  rewrite nlen_rev. destruct (nlen fin <=? cap); reflexivity.
+  rewrite !frev_rev, nlen_rev. destruct (nlen fin <=? cap); cbn [bind]; rewrite ?frev_rev; reflexivity.
 Qed.
 
 (** Every valid LZ4 block (any literal/match length extension, any offset 1..65535, overlapping
@@ -244,7 +244,7 @@ Proof.
   intros s x cap B HD Hc. rewrite lz4_decompress_eq_spec by exact B.
   apply spec_decode_complete in HD. unfold spec_decode in HD. unfold spec_decode_lax.
   destruct (lrun false (S (length s)) s []) as [rout|] eqn:E; [|discriminate]. injection HD as <-.
-  rewrite (lrun_lax_mono _ _ _ _ E). destruct (nlen (rev rout) <=? cap) eqn:E2; [reflexivity|lia].
+  rewrite (lrun_lax_mono _ _ _ _ E). destruct (nlen (frev rout) <=? cap) eqn:E2; [reflexivity|lia].
 Qed.
 
 (** What the decompressor accepts is a valid block, or a series of complete sequences that stops
@@ -284,7 +284,7 @@ Proof.
   intros s x cap B HD Hc. rewrite lz4_decompress_eq_spec by exact B.
   apply spec_decode_complete in HD. unfold spec_decode in HD. unfold spec_decode_lax.
   destruct (lrun false (S (length s)) s []) as [rout|] eqn:E; [|discriminate]. injection HD as <-.
-  rewrite (lrun_lax_mono _ _ _ _ E). destruct (nlen (rev rout) <=? cap) eqn:E2; [lia|reflexivity].
+  rewrite (lrun_lax_mono _ _ _ _ E). destruct (nlen (frev rout) <=? cap) eqn:E2; [lia|reflexivity].
 Qed.
 
 (** non-trivial instance: 255-run literal length, offset-1 overlap, match length extension *)
